@@ -25,7 +25,7 @@ TIERS = {
     "quick": {"workers": 4, "random": 700},
     "thorough": {"workers": 16, "random": 7000, "pytest": True, "exhaustive": True, "hard_timeout": 3300},
 }
-MIN = {"quick": {"C15.CFG.get_cnf_parse_tree": 5000, "C15.LLOneParser.get_llone_parse_tree": 1000,
+MIN = {"quick": {"C15.FCFG.get_parse_tree": 1000, "C15.CFG.get_cnf_parse_tree": 5000, "C15.LLOneParser.get_llone_parse_tree": 1000,
                  "C15.RecursiveDecentParser.get_parse_tree": 2000, "C15.ParseTree.get_leftmost_derivation": 3000,
                  "C15.ParseTree.get_rightmost_derivation": 3000},
        "thorough": {"C15.CFG.get_cnf_parse_tree": 100000, "C15.ParseTree.get_leftmost_derivation": 50000}}
@@ -185,6 +185,46 @@ def post_rd(ref, self, args, kwargs, result, exc):
     remember(result, ref, w)
 
 
+# ------------------------------------------------------------ FCFG (Earley) trees
+
+def pre_fcfg(self, args, kwargs):
+    from vf.props import c18
+    from vf.ref import fs as rfs
+    from vf.ref import cfg as rc
+    prods, start, atoms = c18.fcfg_ref(self)
+    if start is None:
+        return None
+    gp, s0 = rfs.ground(prods, start, sorted(atoms, key=repr) or ["x"])
+    return ref_of(self), rc.Grammar(gp, s0)
+
+
+def post_fcfg(st, self, args, kwargs, result, exc):
+    from pyformlang.cfg.cfg import NotParsableException
+    if st is None:
+        return
+    skel, grounded = st
+    w = word_values(args[0])
+    if w is None:
+        return
+    member = w in grounded.words(len(w))
+    tags = list(core.LOG.case_tags)
+    if exc is not None:
+        if isinstance(exc, NotParsableException):
+            if member:
+                core.report(PROP, "fcfg_tree", "member-refused", {"word": list(w)}, tags)
+        else:
+            core.report(PROP, "fcfg_tree", "exception:" + type(exc).__name__, {"word": list(w), "member": member}, tags)
+        return
+    if not member:
+        core.report(PROP, "fcfg_tree", "non-member-parsed", {"word": list(w)}, tags)
+        return
+    err = validate_tree(result, skel, w)
+    if err:
+        core.report(PROP, "fcfg_tree", "tree:" + err, {"word": list(w)}, tags)
+        return
+    remember(result, skel, w)
+
+
 # ------------------------------------------------------------ derivations
 
 def pre_deriv(self, args, kwargs):
@@ -242,6 +282,8 @@ def install():
     m(R, "get_parse_tree", PROP, pre_parser, post_rd)
     m(ParseTree, "get_leftmost_derivation", PROP, pre_deriv, make_post_deriv(True))
     m(ParseTree, "get_rightmost_derivation", PROP, pre_deriv, make_post_deriv(False))
+    from pyformlang.fcfg import FCFG
+    m(FCFG, "get_parse_tree", PROP, pre_fcfg, post_fcfg)
     core.budget_funcs([R._get_parse_tree_sub, R._match])
 
 
@@ -264,6 +306,9 @@ def plan(tier, rng, sl, nslices, stats):
         else:
             yield dict(gcfg.random_case(rng, max_vars=3, max_terms=2, max_prods=6, max_body=3, vcs=["str", "lower", "int"]),
                        parsers=["cnf", "rd"] if r == 2 else ["cnf", "ll1"])
+    from vf.props import c18
+    for i in range(cfg["random"] // 5):
+        yield c18.rand_fcfg(rng)
     if cfg.get("exhaustive"):
         tot = 0
         for i, c in enumerate(gcfg.exhaustive_cases(3)):
@@ -274,7 +319,34 @@ def plan(tier, rng, sl, nslices, stats):
         stats.extra["exhaustive_scopes"] = "all %d grammars with 2 variables, 2 terminals, <=3 productions of body length <=2 (CNF trees)" % tot
 
 
+def fcfg_tree_tags(c):
+    """ambiguity is what makes the Earley chart share partial trees"""
+    from vf.props import c18
+    return c18.case_tags(c)
+
+
+def run_fcfg(c, stats):
+    import itertools
+    from vf.props import c18
+    stats.cls("fcfg")
+    ok, g = call(c18.build_fcfg, c)
+    if not ok:
+        return False
+    trees = []
+    with core.case(c, fcfg_tree_tags(c)):
+        for w in itertools.chain.from_iterable(itertools.product("ab", repeat=k) for k in range(N + 1)):
+            ok, t = call(g.get_parse_tree, list(w))
+            if ok:
+                trees.append(t)
+        for t in trees[:20]:
+            call(t.get_leftmost_derivation)
+            call(t.get_rightmost_derivation)
+    return bool(trees)
+
+
 def run_case(c, stats):
+    if c.get("kind") == "fcfg":
+        return run_fcfg(c, stats)
     from pyformlang.cfg.llone_parser import LLOneParser
     from pyformlang.cfg.recursive_decent_parser import RecursiveDecentParser
     g = gcfg.build(c)
